@@ -15,7 +15,7 @@ Theorem copy_desc_equiv : forall T h0 m mc OM OG OR OP h',
     CopyDesc T h0 mc OM OG OR OP h' -> obs_model h' (List.length h0) = obs_model h0 m.
 Proof.
   intros T h0 m mc OM OG OR OP h' HTS HSH HOK HCO
-         [W MM GG PP RR dlm dlg dlr dlgr cx D1 D2 D3 D4 D5 D6 D7 D8 D9 D10 D11 D12 D13 D14 D15 D16 D17 D18 D19 D20 D21].
+         [W MM GG PP RR dlm dlg dlr dlgr cx D1 D2 D3 D4 D5 D6 Dge D7 D8 D9 D10 D11 D12 D13 D14 D15 D16 D17 D18 D19 D20 D21].
   exact (obs_model_eq T h0 m mc OM OG OR OP HTS HSH HOK HCO h' W MM GG PP RR dlm dlg dlr dlgr
                       D2 D3 D4 D5 D6 D8 D9 D10 D11 D12 D13 D14 D15 D16 D17 D18 D19 D20 D21).
 Qed.
@@ -171,4 +171,49 @@ Proof.
   destruct (model_copy_desc T h m mc _ _ _ _ HTS HSH HOK h' m' ok Hrun) as [H1 [H2 H3]].
   pose proof (copy_desc_equiv T h m mc _ _ _ _ h' HTS HSH HOK HCO H3) as Heq. subst m'.
   split; [exact H1|]. split; [exact Heq|]. unfold equiv_b. rewrite Heq. apply tree_eqb_refl.
+Qed.
+
+(* ------------------------------------------------------------------ the objects of the copy point at the copy *)
+(* "... whose reactions, metabolites, genes and groups are distinct objects pointing at the copy": every element of
+   the four lists of the copy is a cell created by the copy whose _model is the copy; the context stack is a fresh
+   empty list; the solver is a fresh object *)
+Lemma list_points_sound : forall n h' m' name dl (news : list addr),
+    attr_at h' m' name = Some (Ref dl) -> n <= dl -> get h' dl = Some (mkCell KDictList (dl_items news)) ->
+    (forall x, In x news -> n <= x /\ attr_at h' x "_model" = Some (Ref m')) ->
+    list_points_to n h' m' name = true.
+Proof.
+  intros n h' m' name dl news Ha Hdl Hg Hn. unfold list_points_to. rewrite Ha. apply andb_true_intro. split; [apply Nat.leb_le; exact Hdl|].
+  unfold list_elems. rewrite Hg, elems_dl_items. apply forallb_forall. intros e He. apply in_map_iff in He as [x [<- Hx]].
+  destruct (Hn x Hx) as [H1 H2]. rewrite H2. apply andb_true_intro. split; [apply Nat.leb_le; exact H1|apply Nat.eqb_refl].
+Qed.
+
+Theorem model_copy_points_to : forall T h m h' m' ok,
+    table_safe T = true -> table_shape T = true -> wf_model_content T h m = true ->
+    (exists mc s, get h m = Some mc /\ attr mc "_solver" = Some (Ref s)) ->       (* the model has a solver object *)
+    model_copy T h m = (h', m', ok) -> points_to_copy_b (List.length h) h' m' = true.
+Proof.
+  intros T h m h' m' ok HT HS HW [mc0 [sv [Hm0 Hsv]]] Hrun.
+  destruct (model_copy_structure T h m h' m' ok HT HS HW Hrun) as [_ [-> [mc [OM [OG [OR [OP [HOK HD]]]]]]]].
+  pose proof (mo_get _ _ _ _ _ _ _ _ HOK) as Hm. rewrite Hm0 in Hm. inv Hm.
+  destruct HD as [W MM GG PP RR dlm dlg dlr dlgr cx D1 D2 D3 D4 D5 D6 [G1 [G2 [G3 G4]]] [C1 [C2 C3]] D8 D9 D10 D11 D12 D13 D14 D15 D16 D17 D18 D19 D20 D21].
+  set (n := List.length h) in *.
+  unfold points_to_copy_b. apply andb_true_intro. split; [apply andb_true_intro; split; [apply andb_true_intro; split|]|].
+  - apply Nat.leb_le. lia.
+  - cbn [forallb]. rewrite !andb_true_r.
+    assert (forall kt lk (L : list rec3) (c : rec3 -> list (value * value)),
+               (forall q, In q L -> SpRec h n kt lk h' W q (c q)) ->
+               forall x, In x (map r_new L) -> n <= x /\ attr_at h' x "_model" = Some (Ref n)) as Hsp.
+    { intros kt lk L c HL x Hx. apply in_map_iff in Hx as [q [<- Hq]]. destruct (HL q Hq) as [Hw [_ [_ [_ [Hmod _]]]]].
+      split; [apply (st_W _ _ _ _ D1) in Hw; lia|exact Hmod]. }
+    rewrite (list_points_sound n h' n "reactions" dlr (map q_new RR) D5 G3 D14).
+    + rewrite (list_points_sound n h' n "metabolites" dlm (map r_new MM) D3 G1 D10 (Hsp _ _ MM _ D18)).
+      rewrite (list_points_sound n h' n "genes" dlg (map r_new GG) D4 G2 D12 (Hsp _ _ GG _ D19)).
+      rewrite (list_points_sound n h' n "groups" dlgr (map r_new PP) D6 G4 D16 (Hsp _ _ PP _ D21)). reflexivity.
+    + intros x Hx. apply in_map_iff in Hx as [q [<- Hq]]. destruct (D20 q Hq) as [lo [[Hw _] [_ [_ [Hmod _]]]]].
+      split; [apply (st_W _ _ _ _ D1) in Hw; lia|exact Hmod].
+  - rewrite C1. apply andb_true_intro. split; [apply Nat.leb_le; exact C3|]. rewrite C2. reflexivity.
+  - destruct (D8 "_solver" (or_introl eq_refl)) as [v [v' [Hv [Hv' Hiso]]]]. rewrite Hv'. rewrite Hsv in Hv. inv Hv.
+    pose proof (diso_val _ _ _ _ _ Hiso) as Hval. destruct v' as [s'|a'].
+    + destruct Hiso as [M [_ [_ [Mp Ev]]]]. cbn in Mp, Ev. destruct (mfind sv M); [discriminate|congruence].
+    + destruct Hval as [[Hlo _] _]. cbn. apply Nat.leb_le. exact Hlo.
 Qed.
